@@ -20,7 +20,6 @@
  *   FORK               fork(); the child continues with the script, the parent waits and exits
  *   TIME <t>           set the fake clock only
  *   VAL <name> <v>     set an interposed value source (pagefault, cpu, statm, var)
-<<<<<<< HEAD
  *   ARGFILL <d> <byte> <n> / ARGDUMP <d> <n>   (C09) fill / hex-dump the per-frame argument buffer of
  *                      frame mtd.idx+d (n bytes, may span the following frames' buffers)
  *   ADDR               (C09) -> "ADDR <address of f0> <the @BAD address>"
@@ -28,12 +27,10 @@
  *   SADDR <i>          (C09) -> "SADDR <address of string/object i>"
  *   OBJ <i> <word>...  (C09) define object i as these 8-byte words (numbers, @S<j>, @BAD)
  *   DUMPRAW            (C09) the raw byte stream of this thread's shm buffers -> "DUMPRAW <hex>"
-=======
  *   SYNC               flush stdout (for a driver that talks to the harness interactively)     -> "SYNC"
  *   SHMFAIL <n>        the next n shm_open(O_CREAT) calls fail with ENOSPC (allocate_shmem_buffer)  -> "SHMFAIL"
  *   PSTATE             ring of the current thread -> "P nr_buf curr losts done [flag size]..."
  *   BASE               address of f0 -> "BASE <addr>";   TID -> "TID <tid of the current thread>"
->>>>>>> c03
  *   QUIT
  *
  * A call whose entry returned -1 (not hooked) must not be followed by X for that call:
